@@ -222,6 +222,13 @@ Proof. unfold compile_link. rewrite apply_actions_tags. reflexivity. Qed.
 Lemma compile_link_msg d h : cl_msg (compile_link d h) = src_msg (ls_actions h) None.
 Proof. unfold compile_link. rewrite apply_actions_msg. reflexivity. Qed.
 
+Lemma zero_free_specs l : forallb spec_zero_free l = true -> specs_have l 0 = false.
+Proof.
+  induction l as [|s r IH]; [reflexivity|]. cbn [forallb specs_have existsb]. intro H.
+  apply andb_true_iff in H as [H1 H2]. unfold specs_have in IH. rewrite (IH H2), orb_false_r.
+  unfold spec_zero_free in H1. apply negb_true_iff in H1. exact H1.
+Qed.
+
 (* ---- C17_remove_equiv ---- *)
 
 Definition is_remove (d : directive) : bool :=
@@ -243,9 +250,7 @@ Proof.
     eapply K; [|eapply rm_specs_filter; eassumption].
     intros it _. cbv beta. rewrite compile_item_id. destruct it as [id ph h ch|nm]; cbn [src_keep]; [reflexivity|].
     (* a marker has id 0, not covered by a zero-free list *)
-    f_equal. clear -Hz. induction (sp :: l) as [|s r IH]; [reflexivity|]. cbn [forallb specs_have existsb] in *.
-    apply andb_true_iff in Hz as [H1 H2]. unfold specs_have in IH. rewrite (IH H2), orb_false_r.
-    unfold spec_zero_free in H1. apply negb_true_iff in H1. exact H1.
+    rewrite (zero_free_specs _ Hz). reflexivity.
   - inversion Ha; subst c'. eapply K; [|reflexivity].
     intros it _. destruct it as [id ph h ch|nm]; cbn [compile_item src_keep cr_head marker_rule empty_link cl_tags mem_bytes negb].
     + rewrite compile_link_tags. reflexivity.
